@@ -485,6 +485,33 @@ def opVLMStates : Op K := fun n a =>
     for r in A do o := o ++ r
     return o ++ b
 
+/-- ints: npts, toWind(1)/fromWind(0) ; floats: alpha beta (rad), vectors[npts,3] → rotated vectors -/
+def opPGRotate : Op K := fun n a =>
+  let npts := n.getD 0 0
+  outPts #[] npts (fun p => if flag n 1 then PG.toWind (at_ a 0) (at_ a 1) (pts a 2 p) else PG.fromWind (at_ a 0) (at_ a 1) (pts a 2 p))
+
+/-- ints: npts, kind (0 geometry, 1 normal, 2 force) ; floats: Mach, vectors[npts,3] -/
+def opPGScale : Op K := fun n a =>
+  let npts := n.getD 0 0; let kind := n.getD 1 0
+  let B := PG.betaPG (at_ a 0)
+  outPts #[] npts (fun p => if kind = 0 then PG.scaleGeom B (pts a 1 p) else if kind = 1 then PG.scaleNormal B (pts a 1 p)
+    else PG.unscaleForce B (pts a 1 p))
+
+/-- ints: mode (0 demux, 1 mux), ns, sizes… ; floats: flat (demux) or concatenated parts (mux) → the other layout -/
+def opMux : Op K := fun n a =>
+  let ns := n.getD 1 0
+  let sz := (List.range ns).map fun s => n.getD (2 + s) 0
+  let tot := Mux.total sz
+  if flag n 0 then
+    -- mux: parts are given concatenated in list order
+    outVec #[] tot (Mux.mux sz (fun s k => at_ a (Mux.offset sz s + k)))
+  else
+    Id.run do
+      let mut o : Array K := #[]
+      for s in [0:ns] do
+        for k in [0:sz.getD s 0] do o := o.push (Mux.demux sz (vec a 0) s k)
+      return o
+
 def ops : List (String × Op K) := [
   ("ComputeNodes", opComputeNodes),
   ("LoadTransfer", opLoadTransfer),
@@ -537,7 +564,10 @@ def ops : List (String × Op K) := [
   ("ConvertVelocity", opConvertVelocity),
   ("RotationalVelocity", opRotationalVelocity),
   ("PanelForces", opPanelForces),
-  ("VLMStates", opVLMStates)
+  ("VLMStates", opVLMStates),
+  ("PGRotate", opPGRotate),
+  ("PGScale", opPGScale),
+  ("Mux", opMux)
 ]
 
 end OAS.Driver
